@@ -255,6 +255,9 @@ func (a *TSSActor) Act(e *Env) {
 				n = int(params.MaxDESize) - have + 1 + e.Ch.Intn("tss.de.overn", 3)
 				e.St.Fault("de_over_limit")
 			}
+			if n > 40 || n < -1<<30 {
+				n = 40 // parameters set to edge values by governance must not make the actor generate billions of nonces
+			}
 			if n > 0 {
 				des := m.genDEs(uint64(n))
 				m.pendingDE += len(des)
